@@ -30,10 +30,24 @@ ShareItems == [id : Idents, kind : ShareKinds]
 ShareSeqs == {q \in UNION {[1..n -> ShareItems] : n \in 1..2} :
                  \/ Cardinality({i \in DOMAIN q : q[i].kind # "valid"}) <= 1
                  \/ \A i \in DOMAIN q : q[i].kind = "swap"}
-Msgs == [s : Senders, shares : ShareSeqs]
+(* The second input class of the pipeline: DecryptionKeys messages of peers, handled by
+   DecryptionKeyHandler (keyper/epochkghandler/key.go) on the SAME tables.  A key item is
+   [id, kind]: "correct" = the epoch secret key of id (byte-identical to what aggregation gives, so
+   it is "known" iff keyTab[id] = "good"), "forged" = a well-formed G1 point that is not the key
+   (one fixed object per identity).  1..2 keys, every identity order and every kind combination:
+   [known, forged], [forged, known], [known, correct-new], [known, known], unordered ... all occur
+   because whether a correct key is "known" is a matter of the table state. *)
+KeyKinds == {"correct", "forged"}
+KeyClass(kind) == IF kind = "correct" THEN "good" ELSE "bad"
+KeyItems == [id : Idents, kind : KeyKinds]
+KeySeqs == UNION {[1..n -> KeyItems] : n \in 1..2}
+ShareMsgs == [t : {"shares"}, s : Senders, shares : ShareSeqs, keys : {<<>>}]
+KeysMsgs == [t : {"keys"}, s : {0}, shares : {<<>>}, keys : KeySeqs]
+Msgs == ShareMsgs \cup KeysMsgs
 
-MsgIds(m) == [i \in DOMAIN m.shares |-> m.shares[i].id]
-MsgIdSet(m) == {m.shares[i].id : i \in DOMAIN m.shares}
+(* identity list of a message of either class *)
+MsgIds(m) == IF m.t = "keys" THEN [i \in DOMAIN m.keys |-> m.keys[i].id] ELSE [i \in DOMAIN m.shares |-> m.shares[i].id]
+MsgIdSet(m) == {MsgIds(m)[i] : i \in DOMAIN MsgIds(m)}
 
 DBInit == [shareTab |-> [i \in Idents |-> <<>>], keyTab |-> [i \in Idents |-> "none"]]
 
@@ -100,8 +114,30 @@ HandleMsg(db, m) ==
          ELSE IF a.stop = "error" THEN [db |-> db1, out |-> <<>>, err |-> "enough"]
          ELSE [db |-> [db1 EXCEPT !.keyTab = InsertKeys(db.keyTab, a.keys, 1)], out |-> <<a.keys>>, err |-> ""]
 
+(* DecryptionKeyHandler.ValidateMessage / checkKeysErrors, key by key: decode, order test against
+   the previous identity, then the FAST PATH (a key byte-identical to the stored one is skipped:
+   `continue`), else VerifyEpochSecretKey against the eon public key *)
+RECURSIVE CheckKeys(_, _, _)
+CheckKeys(db, m, i) ==
+    IF i > Len(m.keys) THEN [verdict |-> "accept", err |-> ""]
+    ELSE IF i > 1 /\ Rank(m.keys[i].id) < Rank(m.keys[i - 1].id) THEN [verdict |-> "reject", err |-> "order"]
+    ELSE IF db.keyTab[m.keys[i].id] = KeyClass(m.keys[i].kind) THEN CheckKeys(db, m, i + 1)      \* already stored
+    ELSE IF m.keys[i].kind # "correct" THEN [verdict |-> "reject", err |-> "verify"]
+    ELSE CheckKeys(db, m, i + 1)
+ValidateKeys(db, m) == CheckKeys(db, m, 1)
+
+(* DecryptionKeyHandler.HandleMessage: InsertDecryptionKeysMsg, nothing is emitted *)
+HandleKeys(db, m) ==
+    [db |-> [db EXCEPT !.keyTab = InsertKeys(@, [i \in DOMAIN m.keys |-> [id |-> m.keys[i].id, key |-> KeyClass(m.keys[i].kind)]], 1)],
+     out |-> <<>>, err |-> ""]
+
 (* one delivery as libp2p performs it: validate, handle only on accept *)
 Step(db, m) ==
+    IF m.t = "keys"
+    THEN LET v == ValidateKeys(db, m) IN
+         IF v.verdict # "accept" THEN [db |-> db, verdict |-> v.verdict, verr |-> v.err, out |-> <<>>, err |-> ""]
+         ELSE LET h == HandleKeys(db, m) IN [db |-> h.db, verdict |-> "accept", verr |-> "", out |-> h.out, err |-> h.err]
+    ELSE
     LET v == Validate(m) IN
     IF v.verdict # "accept" THEN [db |-> db, verdict |-> v.verdict, verr |-> v.err, out |-> <<>>, err |-> ""]
     ELSE LET h == HandleMsg(db, m) IN [db |-> h.db, verdict |-> "accept", verr |-> "", out |-> h.out, err |-> h.err]
@@ -114,17 +150,22 @@ Step(db, m) ==
    gh.groups the identity lists those messages carried. *)
 WellFormed(m) ==
     /\ \A i \in DOMAIN m.shares : m.shares[i].kind = "valid"
-    /\ \A i \in DOMAIN m.shares : i > 1 => Rank(m.shares[i].id) >= Rank(m.shares[i - 1].id)
-PGhostInit == [pairs |-> {}, groups |-> {}]
+    /\ \A i \in DOMAIN m.keys : m.keys[i].kind = "correct"
+    /\ \A i \in DOMAIN MsgIds(m) : i > 1 => Rank(MsgIds(m)[i]) >= Rank(MsgIds(m)[i - 1])
+(* gh.got = the identities whose CORRECT key was delivered in a well-formed keys message: a keyper
+   may learn a key from its peers instead of deriving it *)
+PGhostInit == [pairs |-> {}, groups |-> {}, got |-> {}]
 PGhostNext(gh, m) ==
-    IF WellFormed(m)
-    THEN [pairs |-> gh.pairs \cup {<<m.s, id>> : id \in MsgIdSet(m)}, groups |-> gh.groups \cup {MsgIds(m)}]
-    ELSE gh
+    IF ~WellFormed(m) THEN gh
+    ELSE IF m.t = "keys" THEN [gh EXCEPT !.got = @ \cup MsgIdSet(m)]
+    ELSE [gh EXCEPT !.pairs = @ \cup {<<m.s, id>> : id \in MsgIdSet(m)}, !.groups = @ \cup {MsgIds(m)}]
 Held(gh, id) == Cardinality(ValidSenders(gh.pairs, id))
 SeqSet(q) == {q[i] : i \in DOMAIN q}
 (* honest keypers answer one trigger: identities always travel in the same list *)
 UniformGrouping(gh) == \A g1, g2 \in gh.groups : g1 = g2 \/ SeqSet(g1) \cap SeqSet(g2) = {}
-Duplicate(gh, m) == WellFormed(m) /\ \A id \in MsgIdSet(m) : <<m.s, id>> \in gh.pairs
+Duplicate(gh, m) == m.t = "shares" /\ WellFormed(m) /\ \A id \in MsgIdSet(m) : <<m.s, id>> \in gh.pairs
+(* the key of id can be known: T distinct valid shares held, or delivered by a peer *)
+Knowable(gh, id) == Held(gh, id) >= T \/ id \in gh.got
 
 (* obs = [verdict, out, err, post] *)
 (* a well-formed message is never blocked *)
@@ -142,14 +183,16 @@ B_Holds(gh, pre, m, obs) ==
 B_Dup(gh, pre, m, obs) == Duplicate(gh, m) => obs.post.shareTab = pre.shareTab
 (* never from fewer than T *)
 B_NeverFewer(gh, pre, m, obs) ==
-    LET g2 == PGhostNext(gh, m) IN \A id \in Idents : obs.post.keyTab[id] # "none" => Held(g2, id) >= T
-(* as soon as every identity of a well-formed message is held T times, all of them have a key;
+    LET g2 == PGhostNext(gh, m) IN \A id \in Idents : obs.post.keyTab[id] # "none" => Knowable(g2, id)
+(* a well-formed keys message stores all its keys; as soon as every identity of a well-formed
+   shares message is held T times, all of them have a key (the handler re-aggregates EVERY identity
+   of the message from the share table, also those whose key it already learnt from a peer);
    with uniform grouping (what honest keypers send) this is: key <=> T distinct valid shares *)
 B_Exact(gh, pre, m, obs) ==
     LET g2 == PGhostNext(gh, m) IN
-    /\ (WellFormed(m) /\ \A id \in MsgIdSet(m) : Held(g2, id) >= T)
+    /\ (WellFormed(m) /\ (m.t = "keys" \/ \A id \in MsgIdSet(m) : Held(g2, id) >= T))
           => \A id \in MsgIdSet(m) : obs.post.keyTab[id] # "none"
-    /\ UniformGrouping(g2) => \A id \in Idents : (obs.post.keyTab[id] # "none") <=> (Held(g2, id) >= T)
+    /\ UniformGrouping(g2) => \A id \in Idents : (obs.post.keyTab[id] # "none") <=> Knowable(g2, id)
 (* every stored or emitted key is THE key *)
 B_Correct(gh, pre, m, obs) ==
     /\ \A id \in Idents : obs.post.keyTab[id] \in {"none", "good"}
